@@ -346,6 +346,7 @@ fn extra_vals(r: &mut Rng, nfields: usize, vals: &mut ValSet) {
     }
 }
 
+#[derive(Clone)]
 struct FreeCase {
     nshared: usize,
     /// main thread: creation of the shared spans (and events), in global indices
@@ -556,7 +557,27 @@ fn linearize(c: &FreeCase) -> Prog {
 /// Real execution: prelude on the calling thread, the workers free-running between two barriers,
 /// postlude on the calling thread, then the dump.  `None` = some tracing call panicked or the storage
 /// is poisoned.
+static FREE_HANGS: std::sync::atomic::AtomicUsize = std::sync::atomic::AtomicUsize::new(0);
+
+/// `run_free_unguarded` on a thread of its own under a watchdog: emitters that block each other inside
+/// the layer never come back.  Outer `None`: the execution did not finish within the period (its threads
+/// are left behind).
 fn run_free(c: &FreeCase, filter: &FilterSpec) -> Option<(String, usize, usize)> {
+    let (tx, rx) = std::sync::mpsc::channel();
+    let (c2, f2): (FreeCase, FilterSpec) = (c.clone(), filter.clone());
+    std::thread::spawn(move || {
+        let _ = tx.send(run_free_unguarded(&c2, &f2));
+    });
+    match rx.recv_timeout(std::time::Duration::from_secs(30)) {
+        Ok(out) => out,
+        Err(_) => {
+            FREE_HANGS.fetch_add(1, Ordering::SeqCst);
+            None
+        }
+    }
+}
+
+fn run_free_unguarded(c: &FreeCase, filter: &FilterSpec) -> Option<(String, usize, usize)> {
     let storage = SharedStorage::default();
     let dispatch = Dispatch::new(Registry::default().with(filter.attach(CaptureLayer::new(&storage))));
     let sites = make_sites(&free_sites());
@@ -631,6 +652,11 @@ fn free_case_rounds(sink: &mut Sink, idx: u64, kind: &str, c: &FreeCase, filter:
     if !sink.wants(idx) {
         return;
     }
+    // every execution that hangs costs the whole watchdog period and leaves its threads behind
+    if FREE_HANGS.load(Ordering::SeqCst) >= 3 {
+        sink.bump("free:not-run-after-three-hangs");
+        return;
+    }
     let prog = linearize(c);
     let key = format!("{} {:?}", cprog(&prog), filter);
     let emitted_spans = prog.ops.iter().filter(|(_, o)| matches!(o, Op::NewSpan(..))).count();
@@ -666,7 +692,7 @@ fn free_case_rounds(sink: &mut Sink, idx: u64, kind: &str, c: &FreeCase, filter:
     sink.bump_by("captured:spans", ns as u64);
     sink.bump_by("captured:events", ne as u64);
     if dump.is_none() {
-        sink.bump("free:panicked-or-poisoned");
+        sink.bump("free:panicked-poisoned-or-hung");
     }
     sink.case(idx, kind, &judge, &key, ns + ne > 0, || {
         serde_json::json!({ "linearization": show_mt(&prog), "filter": format!("{filter:?}"),
